@@ -250,6 +250,11 @@ def run_check(pid, tier, seed, jobs=None):
             agg.inconclusive.append('monitor counter %s=%d is below its minimum %d (deciding monitor not reached)'
                                     % (name, agg.counters.get(name, 0), m))
 
+    if agg.counters.get('aborted-runs', 0) and pid != 'C07':
+        aborts = sorted(k for k in agg.counters if k.startswith('abort:'))
+        agg.inconclusive.append('%d end-to-end run(s) aborted, so their records could not be observed (%s); aborts are C07\'s subject'
+                                % (agg.counters['aborted-runs'], ', '.join(aborts)[:300]))
+
     # ---- verdict: a violation whose mechanism key is a listed finding is a KNOWN-FINDING, anything else is new
     listed = known.listed_findings(pid)
     lines = []
